@@ -345,6 +345,7 @@ def machine(on_end, expired):
                 self._add("vec", np.asarray(v[::-1], dtype=np.complex128).reshape(8).copy(order="F"))
                 self._add("qlist", [2, 0])
                 self._add("qlist", [1])
+                self._add("qlist", [0, -1])  # positions counted from the end are accepted as well (plain Python indexing)
                 self._add("params", {"sigma": np.array([1.0, 0.5, 2.0])})
                 self._add("params", {"sigma": [0.7, 3.0], "epsilon": 1e-6})
                 self._add("params", {"sigma": 1.5, "epsilon": 1e-3})
